@@ -46,7 +46,7 @@ pub fn hist() -> impl Strategy<Value = Hist> {
     let spec = prop_oneof![
         3 => c14::pair().prop_map(|p| ProgSpec::Gen(Box::new(p))),
         6 => (0u8..10, 0u8..4, any::<u16>()).prop_map(|(f, r, v)| ProgSpec::Shared(f, r, v)),
-        1 => c11::raw_tree().prop_map(|mut t| { t.missing = None; ProgSpec::Tree(t) }),
+        1 => c11::raw_tree().prop_map(|mut t| { t.missing = None; t.main_symlink = false; ProgSpec::Tree(t) }),
     ];
     let op = prop_oneof![
         6 => any::<u16>().prop_map(Op::Build),
